@@ -50,6 +50,8 @@ def to_pym(e):
         return p.Comparison(a, CMP[e[1]], b)
     if k == "pow":
         return p.Power(to_pym(e[1]), to_pym(e[2]))
+    if k == "lookup":
+        return p.Lookup(to_pym(e[1]), e[2])
     if k == "nary":
         ch = tuple(to_pym(c) for c in e[2])
         return {"sum": p.Sum, "prod": p.Product, "min": p.Min, "max": p.Max,
@@ -95,6 +97,8 @@ def from_pym(x):
         return ["bin", inv[x.operator], from_pym(x.left), from_pym(x.right)]
     if isinstance(x, p.Power):
         return ["pow", from_pym(x.base), from_pym(x.exponent)]
+    if isinstance(x, p.Lookup):
+        return ["lookup", from_pym(x.aggregate), x.name]
     for cls, nm in ((p.Sum, "sum"), (p.Product, "prod"), (p.Min, "min"), (p.Max, "max"),
                     (p.LogicalAnd, "and"), (p.LogicalOr, "or")):
         if isinstance(x, cls):
@@ -392,6 +396,7 @@ class Gen:
     def __init__(self, rng, ints, arrs=(), flags=(), funcs=("<func>f", "<func>g2x"), loopvars=(), pow_nodes=False):
         self.rng = rng
         self.pow_nodes = pow_nodes
+        self.lookup_nodes = False
         self.ints = list(ints)
         self.arrs = list(arrs)
         self.flags = list(flags)
@@ -407,6 +412,9 @@ class Gen:
                 return ["var", r.choice(pool)]
             return ["int", r.randint(-3, 6)]
         c = r.random()
+        if self.lookup_nodes and r.random() < 0.2 and self.ints:
+            # attribute lookups (x.real, x.imag): outside the Coq model, exercised by the oracles only
+            return ["lookup", ["var", r.choice(self.ints)], r.choice(["real", "imag"])]
         if self.pow_nodes and r.random() < 0.25:
             # small powers incl. nested ones and negative constant bases (outside the Coq model)
             base = r.choice([self.int_expr(d - 1), ["int", r.choice([-2, -1, 2, 3])],
@@ -477,4 +485,6 @@ def expr_vars(e):
         return set().union(set(), *[expr_vars(c) for c in e[2]], *[expr_vars(v) for _, v in e[3]])
     if k == "pow":
         return expr_vars(e[1]) | expr_vars(e[2])
+    if k == "lookup":
+        return expr_vars(e[1])
     return set()
